@@ -237,6 +237,91 @@ Fixpoint rn_run (s : rn_status) (evs : list rn_event) : rn_status * list (rn_sta
 Definition rn_final (s : rn_status) (evs : list rn_event) : rn_status := fst (rn_run s evs).
 
 (* ------------------------------------------------------------------------------- *)
+(* 3b. The same automaton with the relay's tunnelConnected flag and the tunnel's own two
+       read loops (tunnelRelay.wrapInput / wrapOutput).  State: status x flag.
+       - handshake() stores the flag from the client's ACT once it has decoded it (THsAct);
+       - resetToStandby clears it after its CompareAndSwap has succeeded;
+       - addHandshakeBuffer(buf, tunnel=false) parks main-channel data only while the flag
+         is false; data read from the tunnel is parked whenever the relay is handshaking.
+       The handshake goroutine lives exactly as long as the status is handshaking, so THsAct
+       in another status is no event of the real system (modelled as a no-op).  Tunnel events
+       are those of the tunnel of the current transfer (an older tunnelRelay has relay = nil
+       and only forwards). *)
+
+Definition rt_state := (rn_status * bool)%type.
+
+Inductive rt_event :=
+| TMain (ev : rn_event)      (* the main-channel events of section 3 *)
+| THsAct (tunnel : bool)     (* r.tunnelConnected.Store(action.TunnelConnected) *)
+| TTunIn (c : list N)        (* a chunk read from the client's tunnel connection *)
+| TTunOut (c : list N).      (* a chunk read from the server's tunnel connection *)
+
+Definition rn_status_eqb (a b : rn_status) : bool :=
+  match a, b with
+  | NStandby, NStandby | NHandshaking, NHandshaking | NTransferring, NTransferring => true
+  | _, _ => false
+  end.
+
+(* resetToStandby(from) *)
+Definition rt_reset (from : rn_status) (st : rt_state) : rt_state :=
+  if rn_status_eqb (fst st) from
+  then (NStandby, if relayneg_reset_clears_tunnel_flag then false else snd st)
+  else st.
+
+Definition rn_end_tun_in (c : list N) : bool := rn_has_marker relayneg_markers_tunnel_in c.
+Definition rn_end_tun_out (c : list N) : bool := rn_has_marker relayneg_markers_tunnel_out c.
+
+Definition rt_step (st : rt_state) (ev : rt_event) : rt_state * rn_fwd :=
+  let '(s, fl) := st in
+  match ev with
+  | TMain (NIn c) =>
+    match s with
+    | NHandshaking => if fl then (st, FRaw) else (st, FParked)
+    | NTransferring => (if rn_end_in c then rt_reset NTransferring st else st, FRaw)
+    | NStandby => (st, FRaw)
+    end
+  | TMain (NOut c det) =>
+    match s with
+    | NHandshaking => if fl then (st, if det then FRewritten else FRaw) else (st, FParked)
+    | NTransferring => (if rn_end_out c then rt_reset NTransferring st else st, FRaw)
+    | NStandby => if det then ((NHandshaking, fl), FRewritten) else (st, FRaw)
+    end
+  | TMain (NHsEnd confirm) =>
+    match s with
+    | NHandshaking => (if confirm then (NTransferring, fl) else rt_reset NHandshaking st, FNone)
+    | _ => (st, FNone)
+    end
+  | THsAct tunnel =>
+    match s with
+    | NHandshaking => ((NHandshaking, if relayneg_handshake_sets_tunnel_flag then tunnel else fl), FNone)
+    | _ => (st, FNone)
+    end
+  | TTunIn c =>
+    match s with
+    | NHandshaking => (st, FParked)
+    | NTransferring => (if rn_end_tun_in c then rt_reset NTransferring st else st, FRaw)
+    | NStandby => (st, FRaw)
+    end
+  | TTunOut c =>
+    match s with
+    | NHandshaking => (st, FParked)
+    | NTransferring => (if rn_end_tun_out c then rt_reset NTransferring st else st, FRaw)
+    | NStandby => (st, FRaw)
+    end
+  end.
+
+Fixpoint rt_run (st : rt_state) (evs : list rt_event) : rt_state * list (rt_state * rn_fwd) :=
+  match evs with
+  | [] => (st, [])
+  | ev :: rest =>
+    let '(s1, f) := rt_step st ev in
+    let '(s2, tr) := rt_run s1 rest in
+    (s2, (s1, f) :: tr)
+  end.
+
+Definition rt_final (st : rt_state) (evs : list rt_event) : rt_state := fst (rt_run st evs).
+
+(* ------------------------------------------------------------------------------- *)
 (* 4. The two ends (Go client and Go server), and the negotiation through k relays *)
 
 (* server options that reach the configuration (baseArgs of trz / tsz) *)
